@@ -2400,10 +2400,18 @@ class Signature(object):
 
         der_signature = ''
         hash_type = SIGHASH_ALL
-        if len(signature) > 64 and signature.startswith(b'\x30'):
-            der_signature = signature[:-1]
-            hash_type = int.from_bytes(signature[-1:], 'big')
-            signature = convert_der_sig(signature[:-1], as_hex=False)
+        # A DER encoded signature with hash type byte looks like: 0x30 <sequence length> ... <hash type>. With a short r or s
+        # value it can be 64 bytes or smaller, so also check the sequence length and not just the total size
+        if signature.startswith(b'\x30') and len(signature) > 8 and \
+                (len(signature) > 64 or signature[1] == len(signature) - 3):
+            try:
+                rs_signature = convert_der_sig(signature[:-1], as_hex=False)
+                der_signature = signature[:-1]
+                hash_type = int.from_bytes(signature[-1:], 'big')
+                signature = rs_signature
+            except Exception:
+                if len(signature) != 64:  # 64 bytes starting with 0x30 can also be a plain r + s signature
+                    raise
         if len(signature) != 64:
             raise BKeyError("Signature length must be 64 bytes or 128 character hexstring")
         r = int.from_bytes(signature[:32], 'big')
